@@ -394,7 +394,7 @@ func visitInstr(fr *frame, instr ssa.Instruction) continuation {
 		v := fr.get(instr.Value)
 		switch m := m.(type) {
 		case map[value]value:
-			m[key] = v
+			m[mapKey(key)] = v
 		case *hashmap:
 			m.insert(key.(hashable), v)
 		default:
